@@ -199,10 +199,8 @@ theorem step_local6 {sh : Sh} {t : Tid} {pc : Pc} {op : Op} {sh' : Sh} {pc' : Pc
   | wSleep g0 gg =>
     simp only [step, List.mem_append] at h
     rcases h with h | h
-    · split at h
-      · simp at h; obtain ⟨rfl, rfl⟩ := h
-        exact keep6 g l ⟨rfl, rfl⟩ rfl rfl rfl rfl rfl (by intro o e; cases e) (by intro we e; cases e)
-      · simp at h
+    · simp at h; obtain ⟨rfl, rfl⟩ := h
+      exact keep6 g l ⟨rfl, rfl⟩ rfl rfl rfl rfl rfl (by intro o e; cases e) (by intro we e; cases e)
     · simp at h; obtain ⟨rfl, rfl⟩ := h
       exact keep6 g l ⟨rfl, rfl⟩ rfl rfl rfl rfl rfl (by intro o e; split at e <;> cases e) (by intro we e; split at e <;> cases e)
   | wRet ok sl =>
